@@ -45,7 +45,7 @@ REQUIRED = dict(monitors=['intensity-per-angle', 'flux', 'eclipse-spectrum', 'di
                          'rerun:evaluated-after-change', 'mode:ktable', 'ktable:continuum-only-model',
                          'ktable:model_contrib-entry-judged', 'ktable-mode:no-molecular-absorber',
                          'fault:fired:temperature', 'fault:fired:chemistry', 'fault:fired:contribution', 'fault:fired:pressure',
-                         'several:evaluation-judged', 'several:set_quadratures-on-another-model', 'wn-dtype:i', 'T-route:mixin', 'chemistry:makefree+file'])
+                         'several:evaluation-judged', 'several:set_quadratures-on-another-model', 'wn-dtype:i', 'T-route:mixin', 'chemistry:makefree+file', 'nlayers:1'])
 CUT = math.exp(-10.0)
 _state = {}
 
@@ -113,7 +113,13 @@ def pick_contribs(rng, spec):
 
 def make_case(rng, tkind=None, nlayers=None):
     for _ in range(50):
-        spec = world.random_world_spec(rng, tkind=tkind, nlayers=nlayers)
+        if nlayers is None and rng.random() < 0.08:
+            # a single layer (C02 quantifies over all layer counts): profile classes that need two or more layers to
+            # mean anything (node-based temperatures, two-layer / two-point gases) are outside this class
+            spec = world.random_world_spec(rng, tkind=tkind or ['isothermal', 'guillot', 'array'][rng.integers(0, 3)],
+                                           nlayers=1, gas_kinds=['constant'], n_inactive_trace=0)
+        else:
+            spec = world.random_world_spec(rng, tkind=tkind, nlayers=nlayers)
         spec['contributions'] = pick_contribs(rng, spec)
         spec['cia_magnitude'] = spec['magnitude']
         spec['cia_seed'] = int(rng.integers(0, 2 ** 31))
